@@ -41,7 +41,7 @@ def strategy(tier):
       'seed': st.integers(0, 2 ** 20),
       'initial': st.one_of(st.lists(st.integers(0, 8), min_size=4, max_size=9, unique=True),
                            st.lists(st.integers(0, 8), min_size=1, max_size=9, unique=True)),
-      'open_delay_ms': st.sampled_from([[0], [0], [0, 1], [2]]),
+      'open_delay_ms': st.sampled_from([[0], [0], [0, 1], [2], [50], [0, 300], [300]]),
       'open_fail': st.just([False]),
       'sync_fail': st.just(False),
       'aperture': aperture,
@@ -55,6 +55,7 @@ def strategy(tier):
       (1, st.tuples(st.just('leave'), st.integers(0, 8)).map(list)),
       (2, st.tuples(st.just('advance'), st.sampled_from([10, 500, 2000, 5000, 20000, 40000])).map(list)),
       (1, st.tuples(st.just('clock_back'), st.sampled_from([1, 10, 30])).map(list)),
+      (1, st.tuples(st.just('leave_in_jitter'), st.integers(0, 8)).map(list)),
       (3, st.tuples(st.just('steady'), st.integers(1, 12), st.sampled_from([1, 2, 5]), st.sampled_from([35, 40, 60])).map(list)),
   ]
   return st.fixed_dictionaries({'config': cfg, 'ops': sized_list(weighted(*pairs), 0, 40 if tier == 'quick' else 70)})
